@@ -300,6 +300,7 @@ class SymExec:
     def exec_opaque_loop(self, s: ast.AST, st: State, fr: Frame, it: Term | None) -> State | None:
         """Body interpreted once for an arbitrary element; everything it binds is unknown afterwards."""
         self._uid += 1
+        self.note(f"loop at line {getattr(s, 'lineno', 0)} of {fr.ctx.qualname} is not summarised (effects / break / unknown shape)")
         loc = st.fork()
         if it is not None:
             self.bind_target(s.target, ("elem", it, self._uid), loc)
@@ -372,7 +373,14 @@ class SymExec:
                     continue
                 if isinstance(s, ast.If):
                     c = self.ev(s.test, loc, fr)
-                    if len(s.body) == 1 and isinstance(s.body[0], ast.Continue) and not s.orelse:
+                    if s.body and isinstance(s.body[-1], ast.Continue) and not s.orelse:
+                        # `if c: <X>; continue` == `if c: <X>` else: <rest of the block>
+                        if len(s.body) > 1:
+                            gens[-1][1].append(c)
+                            ok = self._collect(s.body[:-1], loc, outer, fr, gens, actions, raises, temps, n_ifs + 1)
+                            gens[-1][1].pop()
+                            if not ok:
+                                return False
                         gens[-1][1].append(mk_not(c))
                         pushed += 1
                         continue
